@@ -23,7 +23,12 @@ conversion functions (only the `carried` views and plain equality).
 namespace Drv.C14
 
 def trunc (s : String) (n : Nat := 400) : String := if s.length > n then (s.take n).toString ++ "…" else s
-def show' {α} [Repr α] (a : α) : String := trunc (reprStr a)
+def show' {α} [Repr α] (a : α) : String := trunc ((repr a).pretty (width := 1000000))
+/-- the raw case, on one line, for `why` messages -/
+def ctx (inp obs : Json) : String := s!"in={trunc inp.compress 700} obs={trunc obs.compress 900}"
+
+def diffNames {α : Type} (fields : List (String × (α → α → Bool))) (a b : α) : List String :=
+  fields.filterMap fun (n, eq) => if eq a b then none else some n
 
 /-! ### decoding -/
 
@@ -251,6 +256,30 @@ def carriedTags (c : Carried) : List String :=
     ("pids", (c.pids.isSome, c.pids == some ⟨I64.ofInt 0⟩))] ++
   [s!"hugepages:{sizeTag c.hugepages.length}", s!"unified:{sizeTag c.unified.length}", s!"devcg:{sizeTag c.devices.length}"]
 
+/-- names of the carried fields on which two views differ -/
+def carriedDiff (a b : Carried) : List String :=
+  diffNames [("memory.limit", fun x y => decide (x.memLimit = y.memLimit)),
+    ("memory.reservation", fun x y => decide (x.memReservation = y.memReservation)),
+    ("memory.swap", fun x y => decide (x.memSwap = y.memSwap)),
+    ("memory.kernel", fun x y => decide (x.memKernel = y.memKernel)),
+    ("memory.kernelTcp", fun x y => decide (x.memKernelTcp = y.memKernelTcp)),
+    ("memory.swappiness", fun x y => decide (x.memSwappiness = y.memSwappiness)),
+    ("memory.disableOomKiller", fun x y => decide (x.memDisableOom = y.memDisableOom)),
+    ("memory.useHierarchy", fun x y => decide (x.memUseHierarchy = y.memUseHierarchy)),
+    ("cpu.shares", fun x y => decide (x.cpuShares = y.cpuShares)), ("cpu.quota", fun x y => decide (x.cpuQuota = y.cpuQuota)),
+    ("cpu.period", fun x y => decide (x.cpuPeriod = y.cpuPeriod)),
+    ("cpu.realtimeRuntime", fun x y => decide (x.cpuRtRuntime = y.cpuRtRuntime)),
+    ("cpu.realtimePeriod", fun x y => decide (x.cpuRtPeriod = y.cpuRtPeriod)),
+    ("cpu.cpus", fun x y => decide (x.cpus = y.cpus)), ("cpu.mems", fun x y => decide (x.mems = y.mems)),
+    ("hugepageLimits", fun x y => decide (x.hugepages = y.hugepages)), ("devices", fun x y => decide (x.devices = y.devices)),
+    ("pids", fun x y => decide (x.pids = y.pids)), ("unified", fun x y => decide (x.unified = y.unified))] a b
+
+def carriedDiffO (a b : Option Carried) : String :=
+  match a, b with
+  | some a, some b => toString (carriedDiff a b)
+  | none, none => "[]"
+  | _, _ => "[nil-ness of the whole value]"
+
 def judgeResOci (inp obs : Json) : Except String Verdict := do
   let src ← decOciRes (getOpt inp "res")
   let pnc := getStrD obs "panic"
@@ -275,10 +304,20 @@ def judgeResOci (inp obs : Json) : Except String Verdict := do
     | some s => carriedTags s.carried ++ tagIf s.memory.isNone "memory:nil" ++ tagIf s.cpu.isNone "cpu:nil" ++
         tagIf (s.uncarried != []) "oci:uncarried-populated"
   pure { agree := agree, spec := spec,
-         why := if !spec then s!"OCI->NRI->OCI lost a carried field: in {show' src} nri {show' oNri.1} back {show' oBack} panic={pnc}"
-                else if !agree then s!"model nri {show' mNri} impl {show' oNri.1}; model back {show' mBack} impl {show' oBack} nils={nilsOk},{nilsOk2}" else "",
+         why := if !spec then s!"OCI->NRI->OCI does not preserve: FromOCILinuxResources changed {carriedDiffO (src.map (·.carried)) (oNri.1.map (·.carried))}, after ToOCI changed {carriedDiffO (src.map (·.carried)) (oBack.map (·.carried))}; panic='{pnc}' {ctx inp obs}"
+                else if !agree then s!"res_oci: model and implementation differ (nri equal={decide (mNri = oNri.1)} back equal={decide (mBack = oBack)} nil-flags={nilsOk},{nilsOk2}) model nri {show' mNri} {ctx inp obs}" else "",
          sig := if spec then "" else "C14:res:oci-nri-oci",
          cover := "res_oci" :: tags, nontrivial := src.isSome }
+
+def copyDiff (s c : Option NriResources) : String :=
+  match s, c with
+  | some s, some c => toString (diffNames (α := NriResources)
+      [("memory", fun x y => decide (x.memory = y.memory)), ("cpu", fun x y => decide (x.cpu = y.cpu)),
+       ("hugepageLimits", fun x y => decide (x.hugepages = y.hugepages)), ("unified", fun x y => decide (x.unified = y.unified)),
+       ("pids", fun x y => decide (x.pids = y.pids)), ("blockioClass", fun x y => decide (x.blockioClass = y.blockioClass)),
+       ("rdtClass", fun x y => decide (x.rdtClass = y.rdtClass))] s c)
+  | none, none => "[]"
+  | _, _ => "[nil-ness of the whole value]"
 
 def judgeResNri (inp obs : Json) : Except String Verdict := do
   let (src, nilHp, nilDv) ← decNriRes (getOpt inp "res")
@@ -319,10 +358,10 @@ def judgeResNri (inp obs : Json) : Except String Verdict := do
         tagIf s.blockioClass.isSome "nri:blockio-set" ++ tagIf s.rdtClass.isSome "nri:rdt-set" ++
         tagIf (s.blockioClass == some []) "nri:blockio-empty-string"
   pure { agree := agreeTo && agreeCp, spec := specTo && specCp, excluded := excluded,
-         why := if !specCp then s!"Copy differs from its source: in {show' src} copy {show' oCopy} panic={copyP}"
-                else if !specTo then s!"NRI->OCI->NRI lost a carried field: in {show' src} oci {show' oOci} back {show' oBack} panic={ociP}"
-                else if !agreeTo then s!"ToOCI: model {show' mOci} impl {show' oOci}; back model {show' mBack} impl {show' oBack} panic={ociP}"
-                else if !agreeCp then s!"Copy: model {show' mCopy} impl {show' oCopy} panic={copyP}" else "",
+         why := if !specCp then s!"Copy differs from its source on {copyDiff src oCopy}; panic='{copyP}' {ctx inp obs}"
+                else if !specTo then s!"NRI->OCI->NRI does not preserve: ToOCI changed {carriedDiffO (src.map (·.carried)) (oOci.map (·.carried))}, after FromOCILinuxResources changed {carriedDiffO (src.map (·.carried)) (oBack.map (·.carried))}; panic='{ociP}' {ctx inp obs}"
+                else if !agreeTo then s!"res_nri ToOCI: model and implementation differ (oci equal={decide (mOci = oOci)} back equal={decide (mBack = oBack)}) model oci {show' mOci} panic='{ociP}' {ctx inp obs}"
+                else if !agreeCp then s!"res_nri Copy: model {show' mCopy} panic='{copyP}' {ctx inp obs}" else "",
          sig := if excluded then "C14:res:nil-element" else if !specCp then "C14:copy" else if !specTo then "C14:res:nri-oci-nri" else "",
          cover := "res_nri" :: (tags ++ tagIf toFault "res:nil-element"), nontrivial := src.isSome && !excluded }
 
@@ -340,7 +379,7 @@ def judgeMountsOci (inp obs : Json) : Except String Verdict := do
   let spec := pnc == "" && decide (oBack = src.map fun m => { m with idMapped := false }) &&
     decide (oOut.map (fun m => (m.destination, m.type, m.source, m.options)) = src.map (fun m => (m.destination, m.type, m.source, m.options)))
   pure { agree := agree, spec := spec, sig := if spec then "" else "C14:mounts:oci-nri-oci",
-         why := if spec && agree then "" else s!"mounts in {show' src} nri {show' oOut} back {show' oBack} model {show' mOut} nil={oNil} panic={pnc}",
+         why := if spec && agree then "" else s!"mounts OCI->NRI->OCI: spec={spec} agree={agree} panic='{pnc}' {ctx inp obs}",
          cover := ["mounts_oci", s!"mounts:{sizeTag src.length}"] ++ tagIf (src.any (·.idMapped)) "mounts:idmapped",
          nontrivial := src != [] }
 
@@ -368,7 +407,7 @@ def judgeMountsNri (inp obs : Json) : Except String Verdict := do
       | some init => oQ == some (lastProp.getD init)
     let spec := pnc == "" && decide (oBack = src) && specQ
     pure { agree := agree, spec := spec, sig := if spec then "" else "C14:mounts:nri-oci-nri",
-           why := if spec && agree then "" else s!"mounts in {show' src} q={show' q} oci {show' oOut} back {show' oBack} q'={show' oQ} model q'={show' mQ} panic={pnc}",
+           why := if spec && agree then "" else s!"mounts NRI->OCI->NRI: spec={spec} agree={agree} model query={(mQ.map U)} panic='{pnc}' {ctx inp obs}",
            cover := ["mounts_nri", s!"mounts:{sizeTag src.length}"] ++ tagIf q.isSome "mounts:query" ++ tagIf lastProp.isSome "mounts:propagation",
            nontrivial := src != [] }
 
@@ -385,7 +424,7 @@ def judgeDevsOci (inp obs : Json) : Except String Verdict := do
   let agree := pnc == "" && decide (mOut = oOut) && decide (mBack = oBack) && oNil == appendBuiltNil src.length
   let spec := pnc == "" && decide (oOut = src) && decide (oBack = src)
   pure { agree := agree, spec := spec, sig := if spec then "" else "C14:devices:oci-nri-oci",
-         why := if spec && agree then "" else s!"devices in {show' src} nri {show' oOut} back {show' oBack} nil={oNil} panic={pnc}",
+         why := if spec && agree then "" else s!"devices OCI->NRI->OCI: spec={spec} agree={agree} panic='{pnc}' {ctx inp obs}",
          cover := ["devices_oci", s!"devices:{sizeTag src.length}"] ++
            tagIf (src.any (·.fileMode.isSome)) "dev:mode-set" ++ tagIf (src.any (·.fileMode == some (U32.ofNat 0))) "dev:mode-zero" ++
            tagIf (src.any (·.fileMode.isNone)) "dev:mode-unset" ++ tagIf (src.any (·.uid == some (U32.ofNat 0))) "dev:uid-zero",
@@ -406,7 +445,7 @@ def judgeDevsNri (inp obs : Json) : Except String Verdict := do
   let spec := pnc == "" && decide (oOut = want) && decide (oBack = want)
   pure { agree := agree, spec := spec, excluded := hasNil,
          sig := if hasNil then "C14:devices:nil-element" else if spec then "" else "C14:devices:nri-oci-nri",
-         why := if spec && agree then "" else s!"devices in {show' raw} oci {show' oOut} back {show' oBack} access {show' oAcc} panic={pnc}",
+         why := if spec && agree then "" else s!"devices NRI->OCI->NRI: spec={spec} agree={agree} panic='{pnc}' {ctx inp obs}",
          cover := ["devices_nri", s!"devices:{sizeTag raw.length}"] ++ tagIf hasNil "devices:nil-element", nontrivial := raw != [] && !hasNil }
 
 /-! ### hooks -/
@@ -439,7 +478,7 @@ def judgeHooksOci (inp obs : Json) : Except String Verdict := do
   let spec := pnc == "" && decide (oOut = src) && decide (oBack = src) &&
     (oNE == (match src with | none => false | some h => (hooksLists h).any (· != [])))
   pure { agree := agree, spec := spec, sig := if spec then "" else "C14:hooks:oci-nri-oci",
-         why := if spec && agree then "" else s!"hooks in {show' src} nri {show' oOut} back {show' oBack} nonEmpty={oNE} nils={nilsOk} panic={pnc}",
+         why := if spec && agree then "" else s!"hooks OCI->NRI->OCI: spec={spec} agree={agree} nil-flags={nilsOk} panic='{pnc}' {ctx inp obs}",
          cover := ["hooks_oci"] ++ tagIf src.isNone "hooks:nil" ++ tagIf oNE "hooks:nonempty", nontrivial := oNE }
 
 def judgeHooksNri (inp obs : Json) : Except String Verdict := do
@@ -463,7 +502,7 @@ def judgeHooksNri (inp obs : Json) : Except String Verdict := do
     | some x => hooksZip h x
   let spec := pnc == "" && decide (oOut = src) && decide (oBack = src) && decide (oApp = wantApp)
   pure { agree := agree, spec := spec, sig := if spec then "" else "C14:hooks:nri-oci-nri",
-         why := if spec && agree then "" else s!"hooks in {show' src} oci {show' oOut} back {show' oBack} appended {show' oApp} panic={pnc}",
+         why := if spec && agree then "" else s!"hooks NRI->OCI->NRI/Append: spec={spec} agree={agree} panic='{pnc}' {ctx inp obs}",
          cover := ["hooks_nri"] ++ tagIf src.isNone "hooks:nil" ++ tagIf oNE "hooks:nonempty" ++ tagIf extra.isSome "hooks:append",
          nontrivial := oNE }
 
@@ -485,7 +524,7 @@ def judgeEnvOci (inp obs : Json) : Except String Verdict := do
                             else decide (oEnv = src.map fun s => if s.contains '=' then s else s ++ ['=']))
   pure { agree := agree, spec := spec, excluded := !allEq,
          sig := if !allEq then "C14:env:entry-without-eq" else if spec then "" else "C14:env:oci-nri-oci",
-         why := if spec && agree then "" else s!"env in {show' src} kvs {show' oKVs} back {show' oEnv} nil={oNil} panic={pnc}",
+         why := if spec && agree then "" else s!"env OCI->NRI->OCI: spec={spec} agree={agree} panic='{pnc}' {ctx inp obs}",
          cover := ["env_oci", s!"env:{sizeTag src.length}"] ++ tagIf (!allEq) "env:no-eq" ++
            tagIf (src.any fun s => (s.filter (· == '=')).length > 1) "env:several-eq",
          nontrivial := src != [] && allEq }
@@ -507,7 +546,7 @@ def judgeEnvNri (inp obs : Json) : Except String Verdict := do
     let spec := pnc == "" && (!noEq || decide (oKVs = src))
     pure { agree := agree, spec := spec, excluded := !noEq,
            sig := if !noEq then "C14:env:key-with-eq" else if spec then "" else "C14:env:nri-oci-nri",
-           why := if spec && agree then "" else s!"env in {show' src} oci {show' oEnv} back {show' oKVs} panic={pnc}",
+           why := if spec && agree then "" else s!"env NRI->OCI->NRI: spec={spec} agree={agree} panic='{pnc}' {ctx inp obs}",
            cover := ["env_nri", s!"env:{sizeTag src.length}"] ++ tagIf (!noEq) "env:key-with-eq" ++
              tagIf (src.any fun kv => kv.value.contains '=') "env:value-with-eq" ++ tagIf (src.any fun kv => kv.value == []) "env:empty-value",
            nontrivial := src != [] && noEq }
@@ -530,7 +569,7 @@ def judgeHelpers (inp obs : Json) : Except String Verdict := do
     S (getStrD obs "marked") == markForRemoval key && S (getStrD obs "cleared") == clearRemovalMarker key
   let spec := pnc == "" && decide (oS = ss) && decide (oM = mp)
   pure { agree := agree, spec := spec, sig := if spec then "" else "C14:helpers:dup",
-         why := if spec && agree then "" else s!"helpers strs {show' ss} -> {show' oS}; map {show' mp} -> {show' oM}; key {show' key} panic={pnc}",
+         why := if spec && agree then "" else s!"helpers: spec={spec} agree={agree} panic='{pnc}' {ctx inp obs}",
          cover := ["helpers"] ++ tagIf marked "helpers:marked", nontrivial := ss != [] || mp != [] }
 
 /-! ### optional constructors -/
